@@ -2,7 +2,7 @@
    of Http/Grammar.v: each case carries the input and what the implementation (or h11, for the
    recognisers) returned; check_case evaluates the Coq side and compares. *)
 From PM Require Import Lib.Bytes Lib.PyStr Http.Url Http.Chunk Http.Parser Http.HttpCases
-  Http.Builders Http.Grammar.
+  Http.Builders Http.Grammar Http.BuildArgs.
 From Coq Require Import ZArith.
 
 Definition mk_req m u v ct hs body close noua : req_args :=
@@ -30,7 +30,10 @@ Inductive bcase :=
 | BDomReq (ua : bytes) (a : req_args) (wf rfc : bool)
 | BDomResp (a : resp_args) (wf rfc : bool)
 (* the parser state of a well-formed wire message satisfies the hypotheses of the rebuild theorems *)
-| BRebuildDom (t : ptype) (raw : bytes).
+| BRebuildDom (t : ptype) (raw : bytes)
+(* the SPECIFICATION header map of C15_build_disable_headers / _host_override / _for_proxy (Http/BuildArgs.v) against
+   the header map the implementation's build(disable, for_proxy, host) output parsed back to *)
+| BBuildSpec (raw : bytes) (disable : list bytes) (host : option bytes) (observed : option hdict).
 
 Definition res_obs {A} (i : N) (r : result A) : obs A :=
   match r with Ok a => OkObs a | Err e => ErrObs i (exn_code e) end.
@@ -73,6 +76,15 @@ Definition check_case (c : bcase) : bool :=
   | BRebuildDom t raw =>
       match parse (new_parser t) raw with
       | Ok p => if is_request t then rebuildable_req p else rebuildable_resp p
+      | Err _ => false
+      end
+  | BBuildSpec raw dis ho observed =>
+      match parse (new_parser REQUEST_PARSER) raw with
+      | Ok p =>
+          implb (te_guard_b p dis)
+                (rebuildable_req p &&
+                 option_eqb (list_eqb hdr_eqb)
+                   (lift_headers (rebuilt_hs dis ho (unlift (headers p)) ++ readded_D p dis)) observed)
       | Err _ => false
       end
   end.
